@@ -753,6 +753,13 @@ def execute(plan: dict) -> dict:
     whole = spec["mode"] in ("n_steps", "decimal")
     N = spec["n"]
 
+    if plan.get("prior"):
+        probe("earlier_use_of_same_objects")
+        if plan["entry"] == "controller" and plan["prior"]["same_solver"]:
+            probe("earlier_use_same_solver_object")
+            if plan["prior"]["same_controller"]:
+                probe("earlier_use_same_controller_object")
+
     # ---------------- R0: no trackers
     r0 = _run_once(plan, trackers_mode="none")
     if r0["exception"]:
